@@ -143,6 +143,25 @@ async fn run_wire(wt: &WireTalk, rep: &mut CaseReport) -> Option<(String, String
             }
         }
     }
+    // what the peers asked, with the request ids as THEY chose them (byte for byte)
+    let asked: Vec<(std::net::SocketAddr, RequestId)> = w
+        .submitted
+        .iter()
+        .filter(|s| s.from != 0 && matches!(s.body, RequestBody::Talk { .. }))
+        .map(|s| (w.nodes[s.from].addr, s.id.clone()))
+        .collect();
+    if asked.iter().any(|(_, id)| id.0.len() > 1 && id.0[0] == 0) {
+        rep.class("wire-companion/request-id-with-leading-zero-bytes");
+    }
+    for (addr, id) in &asked {
+        if talks.iter().any(|(a, r)| a.socket_addr == *addr && r.id.0.iter().skip_while(|b| **b == 0).eq(id.0.iter().skip_while(|b| **b == 0))) && sent.get(&(*addr, id.clone())).copied().unwrap_or(0) != 1 {
+            let c = sent.get(&(*addr, id.clone())).copied().unwrap_or(0);
+            return Some((
+                if c == 0 { "talk/no-answer-with-the-request's-id".to_string() } else { "talk/answered-more-than-once".to_string() },
+                format!("peer {addr} sent a TALK request with id {} ({} bytes); {c} TALKRESP(s) with exactly that id went onto the wire", id, id.0.len()),
+            ));
+        }
+    }
     for (addr, req) in &talks {
         let c = sent.get(&(addr.socket_addr, req.id.clone())).copied().unwrap_or(0);
         if c != 1 {
@@ -400,7 +419,8 @@ impl Property for C20 {
         tier.pick(100_000, 1_000_000)
     }
     fn strategy(_tier: Tier) -> BoxedStrategy<Case> {
-        let payload = || proptest::collection::vec(any::<u8>(), 0..6);
+        // small payloads, and ones right below the largest that fits a 1280-byte datagram
+        let payload = || prop_oneof![10 => proptest::collection::vec(any::<u8>(), 0..6), 1 => (1150usize..=1177).prop_map(|n| vec![0xABu8; n])];
         let step = prop_oneof![
             8 => (0u8..4, 0u8..=8, payload()).prop_map(|(from, idlen, payload)| Step::Talk { from, idlen, payload }),
             5 => (any::<u16>(), payload()).prop_map(|(sel, payload)| Step::Respond { sel, payload }),
